@@ -247,6 +247,8 @@ def main():
             dict(reads=[("chunk", b"a"), ("chunk", b"b"), ("chunk", b"c")], selects=[]),
             dict(reads=[("chunk", b"x\ry\n")], selects=[]),
             dict(reads=[("again", None), ("chunk", b"\n\n\n")], selects=[True]),
+            dict(reads=[("chunk", b"G1 X1"), ("again", None), ("again", None), ("again", None), ("again", None), ("again", None), ("again", None),
+                        ("chunk", b"0 Y2\nok\n")], selects=[False, False, False, False, False, False]),
             dict(reads=[("chunk", b"ok\nErr"), ("chunk", b"or: "), ("chunk", b"halted")], selects=[]),
         ]
         cases = corpus + cases
